@@ -74,4 +74,134 @@ theorem Learner.predict_ok_dups (val : Act → Rat) (L : Learner) (actions : Lis
     · simp [Learner.predict, hk, hpmf, liftRng, hc]
     · have := (List.getElem?_eq_some_iff.mp hw).1; rw [hv.1] at this; exact this
 
+/-! ### BanditUCB over a list with EQUAL members -/
+
+/-- a weight vector `choicew` can draw from: right length, entries in [0,1], total ≥ 1 -/
+def Drawable (pmf : List Rat) (n : Nat) : Prop :=
+  pmf.length = n ∧ (∀ p ∈ pmf, 0 ≤ p ∧ p ≤ 1) ∧ 1 ≤ pmf.sum
+
+theorem distinct_length_le (l : List Act) : (distinct l).length ≤ l.length := by
+  induction l with
+  | nil => simp [distinct]
+  | cons a l ih =>
+    by_cases h : a ∈ l
+    · simp only [distinct, h, if_true, List.length_cons]; omega
+    · simp only [distinct, h, if_false, List.length_cons]; omega
+
+theorem distinct_ne_nil (l : List Act) (h : l ≠ []) : distinct l ≠ [] := by
+  induction l with
+  | nil => exact absurd rfl h
+  | cons a l ih =>
+    by_cases hm : a ∈ l
+    · simp only [distinct, hm, if_true]
+      exact ih (fun he => by rw [he] at hm; simp at hm)
+    · simp [distinct, hm]
+
+theorem Ucb.pmf_equal_members' (val : Act → Rat) (st : Ucb) (actions : List Act) (hinv : st.Inv) (hne : actions ≠ []) :
+    ∃ pmf, st.pmf val actions = .ok pmf ∧ Drawable pmf actions.length ∧
+      ((∀ a ∈ actions, dhas st.m a = true) → Valid pmf actions.length) := by
+  unfold Ucb.pmf
+  by_cases hnever : actions.filter (fun a => !dhas st.m a) ≠ []
+  · rw [if_pos hnever]
+    refine ⟨_, rfl, ?_, ?_⟩
+    · set never := actions.filter (fun a => !dhas st.m a) with hnv
+      have hk0 : 0 < (distinct never).length := List.length_pos_iff.mpr (distinct_ne_nil _ hnever)
+      have hk : (0 : Rat) < ((distinct never).length : Rat) := by exact_mod_cast hk0
+      have hk1 : (1 : Rat) ≤ ((distinct never).length : Rat) := by exact_mod_cast hk0
+      have hle : ((distinct never).length : Rat) ≤ (never.length : Rat) := by exact_mod_cast distinct_length_le never
+      refine ⟨by simp [uniformOn], ?_, ?_⟩
+      · intro p hp
+        simp only [uniformOn, List.mem_map] at hp
+        obtain ⟨a, _, rfl⟩ := hp
+        split
+        · constructor
+          · positivity
+          · rw [div_le_one hk]; exact hk1
+        · exact ⟨le_refl _, zero_le_one⟩
+      · have hcongr : uniformOn never (distinct never).length actions
+            = actions.map (fun a => if (!dhas st.m a) = true then 1 / ((distinct never).length : Rat) else 0) := by
+          simp only [uniformOn]
+          apply List.map_congr_left
+          intro a ha
+          simp [hnv, List.mem_filter, ha]
+        rw [hcongr, sum_map_ite actions (fun a => (!dhas st.m a) = true)]
+        have : (List.filter (fun x => decide ((!dhas st.m x) = true)) actions) = never := by
+          rw [hnv]; congr 1; funext x; simp
+        rw [this, mul_one_div, le_div_iff₀ hk, one_mul]
+        exact hle
+    · intro hall
+      exfalso
+      obtain ⟨a, l, hal⟩ := List.exists_cons_of_ne_nil hnever
+      have : a ∈ actions.filter (fun a => !dhas st.m a) := by rw [hal]; simp
+      simp only [List.mem_filter] at this
+      have := hall a this.1
+      simp_all
+  · rw [if_neg hnever]
+    have hall : ∀ a ∈ actions, dhas st.m a = true := by
+      intro a ha
+      by_contra hc
+      apply hnever
+      intro he
+      have : a ∈ actions.filter (fun a => !dhas st.m a) := by
+        simp only [List.mem_filter, ha, true_and]; simpa using hc
+      rw [he] at this; simp at this
+    obtain ⟨a0, rest, rfl⟩ := List.exists_cons_of_ne_nil hne
+    have h1 : (a0 :: rest).all (fun a => dhas st.s a) = true := by
+      simp only [List.all_eq_true]
+      intro a ha
+      obtain ⟨n, hn, _⟩ := hinv.1 a (hall a ha)
+      simp [dhas, hn]
+    have h2 : st.t ≠ 0 := hinv.2 ⟨a0, hall a0 (by simp)⟩
+    have h3 : (a0 :: rest).all (fun a => st.sPos a) = true := by
+      simp only [List.all_eq_true]
+      intro a ha
+      obtain ⟨n, hn, hn0⟩ := hinv.1 a (hall a ha)
+      simp [Ucb.sPos, hn, hn0]
+    simp only [h1, h2, h3, Bool.not_true, Bool.false_eq_true, if_false]
+    have hbest : (a0 :: rest).filter (fun a => decide (val a = maxOf (val a0) (rest.map val))) ≠ [] := by
+      have hm : maxOf (val a0) (rest.map val) = val a0 ∨ maxOf (val a0) (rest.map val) ∈ rest.map val := maxOf_mem _ _
+      rcases hm with h | h
+      · intro he
+        have : a0 ∈ (a0 :: rest).filter (fun a => decide (val a = maxOf (val a0) (rest.map val))) := by
+          simp [List.mem_filter, h]
+        rw [he] at this; simp at this
+      · obtain ⟨b, hb, hbv⟩ := List.mem_map.mp h
+        intro he
+        have : b ∈ (a0 :: rest).filter (fun a => decide (val a = maxOf (val a0) (rest.map val))) := by
+          simp [List.mem_filter, hb, hbv]
+        rw [he] at this; simp at this
+    have hv := uniformOn_filter_valid (a0 :: rest) _ hbest
+    refine ⟨_, rfl, ⟨hv.1, ?_, by rw [hv.2.2]⟩, fun _ => hv⟩
+    intro p hp
+    refine ⟨hv.2.1 p hp, ?_⟩
+    have hs := hv.2.2
+    by_contra hgt
+    push_neg at hgt
+    have : p ≤ (uniformOn ((a0 :: rest).filter (fun a => decide (val a = maxOf (val a0) (rest.map val))))
+        ((a0 :: rest).filter (fun a => decide (val a = maxOf (val a0) (rest.map val)))).length (a0 :: rest)).sum :=
+      List.single_le_sum (fun x hx => hv.2.1 x hx) p hp
+    linarith
+
+/-- the set-valued branch really counts an action once: never-observed `[a, a, b]` gets `[1/2, 1/2, 1/2]` (sum 3/2) -/
+theorem ucb_equal_members_witness (val : Act → Rat) : Ucb.pmf val {} [0, 0, 1] = .ok [1/2, 1/2, 1/2] := by
+  simp [Ucb.pmf, dhas, dget, distinct, uniformOn]
+
+/-! ### `accepts` at the depth the property speaks about (Corral over plain learners) -/
+
+theorem allAccept_leaf (fl : Rat → Rat) : ∀ (ss : List (leafBase fl).σ) (fs : List (Act × Rat × Rat)), allAccept (leafLaws fl) ss fs := by
+  intro ss
+  induction ss with
+  | nil => intro fs; simp [allAccept]
+  | cons s ss ih =>
+    intro fs
+    cases fs with
+    | nil => simp [allAccept]
+    | cons f fs => obtain ⟨a, r, p⟩ := f; exact ⟨trivial, ih fs⟩
+
+theorem corral_over_plain_accepts_iff' (fl : Rat → Rat) (s : (corralOver fl (leafBase fl)).σ) (a : Act) (r p : Rat) :
+    (corralLaws fl (leafLaws fl)).accepts s a r p ↔ (0 ≤ misguide fl s.mis r ∧ misguide fl s.mis r ≤ 1 ∧ p ≠ 0) := by
+  constructor
+  · rintro ⟨h0, h1, hp, _⟩; exact ⟨h0, h1, hp⟩
+  · rintro ⟨h0, h1, hp⟩; exact ⟨h0, h1, hp, allAccept_leaf fl _ _⟩
+
 end Coba.C16
